@@ -18,6 +18,7 @@ func init() {
 func checkC09(c *Ctx, p *Prog, r *Result) {
 	c09SuiteValidTable(p, r)
 	c09PaddingRanges(p, r)
+	c09ChainLeafKey(p, r)
 	// (a) key exchange suites
 	r.rule("C09.kex-registry", "kex.Suite constants and RegisterKeyExchangeSuite calls are in bijection")
 	r.floor("C09.kex-registry", 6)
